@@ -1,6 +1,7 @@
 (* C14 — lemmas. *)
-From Coq Require Import List String Ascii ZArith Bool Lia.
+From Coq Require Import List String Ascii ZArith Bool Lia Sorted.
 From Dae Require Import C14_Spec C14_Model.
+From Dae.gen Require Import C14_Consts.
 Import ListNotations.
 Open Scope string_scope.
 
@@ -358,6 +359,332 @@ Section Proofs.
   Qed.
 End Proofs.
 
+(* ------------------------------------------------------------------------------------------ *)
+(* the executable spec is the declarative one                                                 *)
+(* ------------------------------------------------------------------------------------------ *)
+Lemma sorted_map_S : forall l, StronglySorted lt l -> StronglySorted lt (map S l).
+Proof.
+  induction 1 as [|a l SS IH FA]; cbn; constructor; [exact IH|].
+  rewrite Forall_forall in *. intros x Hx. apply in_map_iff in Hx as [y [<- Hy]].
+  apply FA in Hy. lia.
+Qed.
+
+Lemma filter_positions : forall (A : Type) (f : A -> bool) (d : A) (l : list A),
+    exists idxs, StronglySorted lt idxs
+                 /\ filter f l = map (fun i => nth i l d) idxs
+                 /\ forall i, In i idxs <-> (i < List.length l /\ f (nth i l d) = true).
+Proof.
+  intros A f d. induction l as [|a l [idxs [SS [EQ IN]]]].
+  - exists []. split; [constructor|]. split; [reflexivity|]. intros i. cbn. split; [tauto | lia].
+  - assert (SS' : StronglySorted lt (map S idxs)) by (apply sorted_map_S; exact SS).
+    assert (MM : map (fun i => nth i (a :: l) d) (map S idxs) = map (fun i => nth i l d) idxs)
+      by (rewrite map_map; reflexivity).
+    assert (INS : forall i, In i (map S idxs) <-> (exists i', i = S i' /\ i' < List.length l /\ f (nth i' l d) = true)).
+    { intros i. rewrite in_map_iff. split.
+      - intros [y [<- Hy]]. exists y. split; [reflexivity|]. apply IN. exact Hy.
+      - intros [i' [-> H]]. exists i'. split; [reflexivity|]. apply IN. exact H. }
+    cbn [filter]. destruct (f a) eqn:FA.
+    + exists (0 :: map S idxs). split; [|split].
+      * constructor; [exact SS'|]. rewrite Forall_forall. intros x Hx.
+        apply in_map_iff in Hx as [y [<- _]]. lia.
+      * replace (a :: filter f l) with (nth 0 (a :: l) d :: map (fun i => nth i (a :: l) d) (map S idxs));
+          [reflexivity|]. rewrite MM, EQ. reflexivity.
+      * intros i. cbn [In]. rewrite INS. cbn [List.length]. split.
+        -- intros [<-|[i' [-> [L F]]]]; cbn; [split; [lia | exact FA] | split; [lia | exact F]].
+        -- intros [L F]. destruct i as [|i']; [left; reflexivity|]. right. exists i'. cbn in F.
+           split; [reflexivity|]. split; [lia | exact F].
+    + exists (map S idxs). split; [exact SS'|]. split; [rewrite MM; exact EQ|].
+      intros i. rewrite INS. cbn [List.length]. split.
+      * intros [i' [-> [L F]]]. cbn. split; [lia | exact F].
+      * intros [L F]. destruct i as [|i']; [cbn in F; congruence|]. exists i'. cbn in F.
+        split; [reflexivity|]. split; [lia | exact F].
+Qed.
+
+Section Declarative.
+  Variable re_ok : string -> bool.
+  Variable re_match : string -> string -> bool.
+  Variable dur : string -> option Z.
+  Variable rp : input -> node -> param -> bool.
+  Variable rf : node -> func -> bool.
+  Variable ra : annotation -> Z.
+
+  Lemma func_holds_iff : forall n f,
+      func_holds re_ok re_match rp rf n f = true <-> func_holds_P re_ok re_match rp rf n f.
+  Proof.
+    intros n f. unfold func_holds, func_holds_P.
+    destruct (input_of (f_name f)) as [i|]; [|tauto].
+    rewrite <- existsb_exists.
+    destruct (existsb (param_matches re_ok re_match rp i n) (f_params f)), (f_not f); cbn;
+      intuition congruence.
+  Qed.
+
+  Lemma line_hits_iff : forall n l,
+      line_hits re_ok re_match rp rf n l = true <-> satisfies re_ok re_match rp rf n l.
+  Proof.
+    intros n l. unfold line_hits, satisfies. rewrite forallb_forall.
+    split; intros H f I; apply func_holds_iff; apply H; exact I.
+  Qed.
+
+  Lemma first_hit_spec : forall n lines annos a,
+      first_hit re_ok re_match rp rf n lines annos = Some a ->
+      exists j l, nth_error lines j = Some l /\ nth_error annos j = Some a
+                  /\ line_hits re_ok re_match rp rf n l = true
+                  /\ forall j' l', j' < j -> nth_error lines j' = Some l' ->
+                                    line_hits re_ok re_match rp rf n l' = false.
+  Proof.
+    intros n. induction lines as [|l lines IH]; intros annos a H; [discriminate|].
+    destruct annos as [|a0 annos]; [discriminate|]. cbn in H.
+    destruct (line_hits re_ok re_match rp rf n l) eqn:LH.
+    - injection H as <-. exists 0, l. cbn. repeat split; auto. intros j' l' Hj. lia.
+    - destruct (IH annos a H) as [j [l1 [N1 [N2 [LH1 FST]]]]].
+      exists (S j), l1. cbn. repeat split; auto.
+      intros j' l' Hj N. destruct j' as [|j']; cbn in N.
+      + injection N as <-. exact LH.
+      + eapply FST; [|exact N]. lia.
+  Qed.
+
+  Lemma spec_group_is_group : forall pool lines annos,
+      lines <> [] -> List.length lines = List.length annos ->
+      is_group re_ok re_match dur rp rf ra pool lines annos
+               (spec_group re_ok re_match dur rp rf ra pool lines annos).
+  Proof.
+    intros pool lines annos NE Len. unfold is_group, spec_group.
+    assert (M : forall n, member re_ok re_match rp rf lines n = true <->
+                          exists l, In l lines /\ satisfies re_ok re_match rp rf n l).
+    { intros n. unfold member. destruct lines as [|l0 ls]; [congruence|].
+      rewrite existsb_exists. split; intros [l [I H]]; exists l; (split; [exact I|]); apply line_hits_iff; exact H. }
+    split.
+    - destruct (filter_positions node (member re_ok re_match rp rf lines) (mkNode 0 "" "") pool)
+        as [idxs [SS [EQ IN]]].
+      exists idxs. split; [exact SS|]. split.
+      + rewrite map_map. cbn [fst]. rewrite map_id. exact EQ.
+      + intros i. rewrite IN. rewrite M. tauto.
+    - intros n z I. apply in_map_iff in I as [n' [E I]]. injection E as -> <-.
+      apply filter_In in I as [_ MB].
+      unfold node_offset.
+      destruct (first_hit re_ok re_match rp rf n lines annos) as [a|] eqn:FH.
+      + destruct (first_hit_spec n lines annos a FH) as [j [l [N1 [N2 [LH FST]]]]].
+        exists j, l, a. repeat split; auto.
+        * apply line_hits_iff. exact LH.
+        * intros j' l' Hj N S. apply line_hits_iff in S. rewrite (FST j' l' Hj N) in S. discriminate.
+      + apply (first_hit_none re_ok re_match rp rf n lines annos Len) in FH.
+        unfold member in MB. destruct lines; [congruence|]. congruence.
+  Qed.
+
+  Lemma group_characterisation_proof : forall pool lines annos,
+      def_valid re_ok dur lines annos = true -> lines <> [] ->
+      exists g, filter_and_annotate re_ok re_match dur pool lines annos = Ok g
+                /\ is_group re_ok re_match dur rp rf ra pool lines annos g.
+  Proof.
+    intros pool lines annos V NE. eexists. split.
+    - apply members_exact_proof. exact V.
+    - apply spec_group_is_group; [exact NE|].
+      unfold def_valid in V. apply andb_true_iff in V as [V _]. apply andb_true_iff in V as [Len _].
+      apply Nat.eqb_eq. exact Len.
+  Qed.
+End Declarative.
+
+(* ------------------------------------------------------------------------------------------ *)
+(* an error names a fragment that really is in the definition                                  *)
+(* ------------------------------------------------------------------------------------------ *)
+Definition key_known (i : input) (k : string) : Prop :=
+  k = "" \/ k = "regex" \/ (i = InName /\ k = "keyword").
+
+Definition error_genuine (re_ok : string -> bool) (dur : string -> option Z)
+           (lines : list line) (annos : list annotation) (e : err) : Prop :=
+  match e with
+  | EBadRegex => exists l f p, In l lines /\ In f l /\ In p (f_params f) /\ input_of (f_name f) <> None
+                               /\ p_key p = "regex" /\ re_ok (p_val p) = false
+  | EUnknownKey => exists l f p i, In l lines /\ In f l /\ In p (f_params f) /\ input_of (f_name f) = Some i
+                                   /\ ~ key_known i (p_key p)
+  | EUnknownInput => exists l f, In l lines /\ In f l /\ input_of (f_name f) = None
+  | EAnnoFormat => exists a p, In a annos /\ In p a /\ p_key p = "add_latency" /\ dur (p_val p) = None
+  | EAnnoKey => exists a p, In a annos /\ In p a /\ p_key p <> "add_latency"
+  | ELenMismatch => List.length lines <> List.length annos
+  | _ => False
+  end.
+
+Definition frag_genuine (re_ok : string -> bool) (dur : string -> option Z)
+           (lines : list line) (annos : list annotation) (e : err) : Prop :=
+  match e with ELenMismatch => False | _ => error_genuine re_ok dur lines annos e end.
+
+Section Genuine.
+  Variable re_ok : string -> bool.
+  Variable re_match : string -> string -> bool.
+  Variable dur : string -> option Z.
+
+  Lemma name_or_loop_err : forall s params e,
+      name_or_loop re_ok re_match s params = Err e ->
+      exists p, In p params /\
+                ((e = EBadRegex /\ p_key p = "regex" /\ re_ok (p_val p) = false)
+                 \/ (e = EUnknownKey /\ ~ key_known InName (p_key p))).
+  Proof.
+    intros s. induction params as [|p rest IH]; intros e H; cbn in H; [discriminate|].
+    assert (R : forall e, name_or_loop re_ok re_match s rest = Err e ->
+                          exists p0, In p0 (p :: rest) /\
+                ((e = EBadRegex /\ p_key p0 = "regex" /\ re_ok (p_val p0) = false)
+                 \/ (e = EUnknownKey /\ ~ key_known InName (p_key p0)))).
+    { intros e0 H0. destruct (IH e0 H0) as [p0 [I P]]. exists p0. split; [right; exact I | exact P]. }
+    destruct (p_key p =? "regex") eqn:Kre.
+    - apply String.eqb_eq in Kre. destruct (re_ok (p_val p)) eqn:RO.
+      + destruct (re_match (p_val p) s); [discriminate | apply R; exact H].
+      + injection H as <-. exists p. split; [left; reflexivity | left; auto].
+    - destruct (p_key p =? "keyword") eqn:Kkw.
+      + destruct (containsb s (p_val p)); [discriminate | apply R; exact H].
+      + destruct (p_key p =? "") eqn:Kex.
+        * destruct (s =? p_val p); [discriminate | apply R; exact H].
+        * injection H as <-. exists p. split; [left; reflexivity | right]. split; [reflexivity|].
+          apply String.eqb_neq in Kre, Kkw, Kex. unfold key_known. intuition congruence.
+  Qed.
+
+  Lemma subtag_or_loop_err : forall s params e,
+      subtag_or_loop re_ok re_match s params = Err e ->
+      exists p, In p params /\
+                ((e = EBadRegex /\ p_key p = "regex" /\ re_ok (p_val p) = false)
+                 \/ (e = EUnknownKey /\ ~ key_known InSubtag (p_key p))).
+  Proof.
+    intros s. induction params as [|p rest IH]; intros e H; cbn in H; [discriminate|].
+    assert (R : forall e, subtag_or_loop re_ok re_match s rest = Err e ->
+                          exists p0, In p0 (p :: rest) /\
+                ((e = EBadRegex /\ p_key p0 = "regex" /\ re_ok (p_val p0) = false)
+                 \/ (e = EUnknownKey /\ ~ key_known InSubtag (p_key p0)))).
+    { intros e0 H0. destruct (IH e0 H0) as [p0 [I P]]. exists p0. split; [right; exact I | exact P]. }
+    destruct (p_key p =? "regex") eqn:Kre.
+    - apply String.eqb_eq in Kre. destruct (re_ok (p_val p)) eqn:RO.
+      + destruct (re_match (p_val p) s); [discriminate | apply R; exact H].
+      + injection H as <-. exists p. split; [left; reflexivity | left; auto].
+    - destruct (p_key p =? "") eqn:Kex.
+      + destruct (s =? p_val p); [discriminate | apply R; exact H].
+      + injection H as <-. exists p. split; [left; reflexivity | right]. split; [reflexivity|].
+        apply String.eqb_neq in Kre, Kex. unfold key_known. intuition (try congruence; try discriminate).
+  Qed.
+
+  Lemma filter_hit_err : forall d l e,
+      filter_hit re_ok re_match d l = Err e ->
+      frag_genuine re_ok dur [l] [] e \/ False.
+  Proof.
+    intros d. induction l as [|f rest IH]; intros e H; cbn in H; [discriminate|].
+    assert (R : forall e, filter_hit re_ok re_match d rest = Err e -> frag_genuine re_ok dur [f :: rest] [] e).
+    { intros e0 H0. destruct (IH e0 H0) as [G|[]].
+      destruct e0; cbn in G |- *; try contradiction.
+      - destruct G as [l [f0 [p [[<-|[]] [I2 R]]]]]. exists (f :: rest), f0, p. cbn. tauto.
+      - destruct G as [l [f0 [p [i [[<-|[]] [I2 R]]]]]]. exists (f :: rest), f0, p, i. cbn. tauto.
+      - destruct G as [l [f0 [[<-|[]] [I2 R]]]]. exists (f :: rest), f0. cbn. tauto.
+      - destruct G as [a [p [[] _]]].
+      - destruct G as [a [p [[] _]]]. }
+    left.
+    destruct (f_name f =? "name") eqn:Nn.
+    - assert (IO : input_of (f_name f) = Some InName) by (unfold input_of; rewrite Nn; reflexivity).
+      destruct (name_or_loop re_ok re_match (n_name d) (f_params f)) as [sub|e'] eqn:L.
+      + destruct (Bool.eqb sub (f_not f)); [discriminate | apply R; exact H].
+      + injection H as <-. apply name_or_loop_err in L as [p [I [[-> [K RO]]|[-> K]]]]; cbn.
+        * exists (f :: rest), f, p. cbn. rewrite IO. repeat split; auto. discriminate.
+        * exists (f :: rest), f, p, InName. cbn. auto.
+    - destruct (f_name f =? "subtag") eqn:Ns.
+      + assert (IO : input_of (f_name f) = Some InSubtag) by (unfold input_of; rewrite Nn, Ns; reflexivity).
+        destruct (subtag_or_loop re_ok re_match (n_tag d) (f_params f)) as [sub|e'] eqn:L.
+        * destruct (Bool.eqb sub (f_not f)); [discriminate | apply R; exact H].
+        * injection H as <-. apply subtag_or_loop_err in L as [p [I [[-> [K RO]]|[-> K]]]]; cbn.
+          -- exists (f :: rest), f, p. cbn. rewrite IO. repeat split; auto. discriminate.
+          -- exists (f :: rest), f, p, InSubtag. cbn. auto.
+      + injection H as <-. cbn. exists (f :: rest), f. cbn. unfold input_of. rewrite Nn, Ns. auto.
+  Qed.
+
+  Lemma new_annotation_loop_err : forall a acc e,
+      new_annotation_loop dur acc a = Err e -> frag_genuine re_ok dur [] [a] e.
+  Proof.
+    induction a as [|p rest IH]; intros acc e H; cbn in H; [discriminate|].
+    destruct (p_key p =? "add_latency") eqn:K.
+    - apply String.eqb_eq in K. destruct (dur (p_val p)) eqn:D.
+      + apply IH in H. destruct e; cbn in H |- *; try contradiction.
+        * destruct H as [l [f [p0 [[] _]]]].
+        * destruct H as [l [f [p0 [i [[] _]]]]].
+        * destruct H as [l [f [[] _]]].
+        * destruct H as [a [p0 [[<-|[]] [I R]]]]. exists (p :: rest), p0. cbn. tauto.
+        * destruct H as [a [p0 [[<-|[]] [I R]]]]. exists (p :: rest), p0. cbn. tauto.
+      + injection H as <-. cbn. exists (p :: rest), p. cbn. auto.
+    - injection H as <-. cbn. apply String.eqb_neq in K. exists (p :: rest), p. cbn. auto.
+  Qed.
+
+  Lemma genuine_mono : forall lines annos lines' annos' e,
+      (forall l, In l lines -> In l lines') -> (forall a, In a annos -> In a annos') ->
+      frag_genuine re_ok dur lines annos e -> frag_genuine re_ok dur lines' annos' e.
+  Proof.
+    intros lines annos lines' annos' e HL HA G. destruct e; cbn in G |- *; try contradiction.
+    - destruct G as [l [f [p [I R]]]]. exists l, f, p. split; auto.
+    - destruct G as [l [f [p [i [I R]]]]]. exists l, f, p, i. split; auto.
+    - destruct G as [l [f [I R]]]. exists l, f. split; auto.
+    - destruct G as [a [p [I R]]]. exists a, p. split; auto.
+    - destruct G as [a [p [I R]]]. exists a, p. split; auto.
+  Qed.
+
+  Lemma lines_loop_err : forall d lines annos e,
+      List.length lines = List.length annos ->
+      lines_loop re_ok re_match dur d lines annos = Err e ->
+      frag_genuine re_ok dur lines annos e.
+  Proof.
+    intros d. induction lines as [|l lines IH]; intros annos e Len H; [discriminate|].
+    destruct annos as [|a annos]; [discriminate|]. cbn in Len. injection Len as Len.
+    cbn [C14_Model.lines_loop hd tl] in H.
+    destruct (filter_hit re_ok re_match d l) as [b|e'] eqn:FH.
+    - destruct b.
+      + unfold new_annotation in H.
+        destruct (new_annotation_loop dur 0 a) as [z|e'] eqn:NA; [discriminate|].
+        injection H as <-. apply new_annotation_loop_err in NA.
+        eapply genuine_mono; [| | exact NA].
+        * intros ? [].
+        * intros a0 [<-|[]]. left. reflexivity.
+      + specialize (IH annos e Len H).
+        eapply genuine_mono; [| | exact IH]; intros; right; assumption.
+    - injection H as <-. apply filter_hit_err in FH as [G|[]].
+      eapply genuine_mono; [| | exact G].
+      + intros l0 [<-|[]]. left. reflexivity.
+      + intros ? [].
+  Qed.
+
+  Lemma dialers_loop_err : forall pool lines annos e,
+      List.length lines = List.length annos ->
+      dialers_loop re_ok re_match dur pool lines annos = Err e ->
+      frag_genuine re_ok dur lines annos e.
+  Proof.
+    intros pool lines annos e Len. induction pool as [|d pool IH]; intros H; cbn in H; [discriminate|].
+    destruct (lines_loop re_ok re_match dur d lines annos) as [o|e'] eqn:LL.
+    - destruct (dialers_loop re_ok re_match dur pool lines annos) as [l'|e'] eqn:DL; [discriminate|].
+      injection H as <-. apply IH. reflexivity.
+    - injection H as <-. apply lines_loop_err in LL; [exact LL | exact Len].
+  Qed.
+
+  Lemma error_genuine_proof : forall pool lines annos e,
+      filter_and_annotate re_ok re_match dur pool lines annos = Err e ->
+      error_genuine re_ok dur lines annos e.
+  Proof.
+    intros pool lines annos e H. unfold C14_Model.filter_and_annotate in H.
+    destruct (Nat.eqb (List.length lines) (List.length annos)) eqn:Len; cbn in H.
+    - apply Nat.eqb_eq in Len. destruct lines as [|l0 lines]; [discriminate|].
+      pose proof (dialers_loop_err _ _ _ _ Len H) as G. destruct e; cbn in G |- *; tauto.
+    - injection H as <-. cbn. apply Nat.eqb_neq. exact Len.
+  Qed.
+End Genuine.
+
+(* the annotation of a line: first NON-ZERO setting; "first setting" is false *)
+Lemma anno_value_proof : forall dur a z,
+    new_annotation dur a = Ok z <-> (anno_valid dur a = true /\ z = first_nonzero (anno_settings dur a)).
+Proof.
+  intros dur a z. split.
+  - intros H. apply new_annotation_loop_ok in H. exact H.
+  - intros [V ->]. destruct (new_annotation_loop_valid dur a 0%Z V) as [z H].
+    unfold new_annotation. rewrite H. f_equal. apply new_annotation_loop_ok in H as [_ ->]. reflexivity.
+Qed.
+
+Lemma anno_first_setting_refuted_proof :
+  ~ (forall dur a z, new_annotation dur a = Ok z -> z = hd 0%Z (anno_settings dur a)).
+Proof.
+  intros H.
+  specialize (H (fun s => if s =? "0s" then Some 0%Z else if s =? "5ms" then Some 5000000%Z else None)
+                [mkParam "add_latency" "0s"; mkParam "add_latency" "5ms"] 5000000%Z eq_refl).
+  vm_compute in H. discriminate.
+Qed.
+
 (* the strict reading is false: lazy validation *)
 Lemma invalid_always_reported_refuted_proof :
   ~ (forall re_ok re_match dur pool lines annos,
@@ -423,4 +750,49 @@ Proof.
   intros r. unfold new_policy, spec_policy_raw.
   destruct r; cbn [parse_function_list_or_string policy_functions]; try apply policy_fs_proof.
   reflexivity.
+Qed.
+
+(* the string constants of the Go sources (coq/gen/C14_Consts.v, regenerated on every run) are the ones
+   the spec is written with *)
+Definition consts_tied_statement : Prop :=
+  input_of go_FilterInput_Name = Some InName
+  /\ input_of go_FilterInput_SubscriptionTag = Some InSubtag
+  /\ go_FilterKey_Name_Regex = "regex" /\ go_FilterInput_SubscriptionTag_Regex = "regex"
+  /\ go_FilterKey_Name_Keyword = "keyword"
+  /\ go_AnnotationKey_AddLatency = "add_latency"
+  /\ policy_of_name go_DialerSelectionPolicy_Random = Some PRandom
+  /\ policy_of_name go_DialerSelectionPolicy_Fixed = Some PFixed
+  /\ policy_of_name go_DialerSelectionPolicy_MinAverage10Latencies = Some PMinAvg10
+  /\ policy_of_name go_DialerSelectionPolicy_MinMovingAverageLatencies = Some PMinMovingAvg
+  /\ policy_of_name go_DialerSelectionPolicy_MinLastLatency = Some PMinLast.
+
+Lemma consts_tied_proof : consts_tied_statement.
+Proof. unfold consts_tied_statement. repeat split; reflexivity. Qed.
+
+Lemma nth_Z_nth_error : forall (A : Type) (g : list A) (i : Z),
+    (0 <= i)%Z -> nth_Z g i = nth_error g (Z.to_nat i).
+Proof.
+  intros A. induction g as [|a r IH]; intros i Hi; cbn [nth_Z].
+  - destruct (Z.to_nat i); reflexivity.
+  - destruct (Z.eqb i 0) eqn:E.
+    + apply Z.eqb_eq in E. subst i. reflexivity.
+    + apply Z.eqb_neq in E. rewrite IH by lia.
+      replace (Z.to_nat i) with (S (Z.to_nat (i - 1))) by lia. reflexivity.
+Qed.
+
+Lemma fixed_ith_proof : forall (A : Type) (g : list A) (i : Z),
+    result_to_option (select_fixed g i) = fixed_choice g i.
+Proof.
+  intros A g i. unfold select_fixed, fixed_choice.
+  destruct (Z.leb 0 i) eqn:L2.
+  - apply Z.leb_le in L2. rewrite nth_Z_nth_error by exact L2.
+    destruct (Nat.eqb (List.length g) 0) eqn:E0.
+    + apply Nat.eqb_eq in E0. destruct g; [|discriminate]. cbn. destruct (Z.to_nat i); reflexivity.
+    + destruct (Z.ltb i 0) eqn:L; [apply Z.ltb_lt in L; lia|]. cbn.
+      destruct (Z.geb i (Z.of_nat (List.length g))) eqn:G; cbn.
+      * rewrite Z.geb_le in G. symmetry. apply nth_error_None. lia.
+      * destruct (nth_error g (Z.to_nat i)); reflexivity.
+  - apply Z.leb_gt in L2.
+    destruct (Nat.eqb (List.length g) 0); [reflexivity|].
+    destruct (Z.ltb i 0) eqn:L; [reflexivity | apply Z.ltb_ge in L; lia].
 Qed.
